@@ -45,6 +45,14 @@ pub fn get_memory_region(
         .checked_add(size)
         .context_code(EVM_CONTRACT_ILLEGAL_MEMORY_ACCESS, "new memory size exceeds max u32")?;
 
+    #[cfg(feature = "verif-hooks")]
+    if !crate::verif_hooks::memory_ok(new_size as usize) {
+        return Err(ActorError::unchecked(
+            fvm_shared::error::ExitCode::SYS_OUT_OF_GAS,
+            "verif-hooks: memory cap exceeded".into(),
+        ));
+    }
+
     mem.grow(new_size as usize);
 
     Ok(Some(MemoryRegion {
